@@ -552,6 +552,8 @@ class Scheduler(object):
             return [dt, 'killop', rng.choice(ups), rng.choice([1, 1, 2, 3, 5, 8, 13]),
                     rng.choice(['before', 'after', 'torn']), rng.choice([0.1, 0.5, 0.9])]
         if k == 'start':
+            if s.get('p_kill_while_starting', 0) and rng.random() < s['p_kill_while_starting']:
+                return [dt, 'start', rng.choice(downs), rng.choice([1, 1, 2, 3, 4, 6, 9]), rng.choice(['before', 'after', 'torn']), rng.choice([0.1, 0.5, 0.9])]
             return [dt, 'start', rng.choice(downs)]
         if k == 'compact':
             # half of the forced compactions are aimed at a node that is in the middle of receiving a snapshot: its own
